@@ -86,7 +86,7 @@ type GenesisAlloc struct {
 func DefaultAlloc(k *Keys) GenesisAlloc {
 	var g GenesisAlloc
 	v := uint32(1000)
-	for _, c := range []int{AddrV1, AddrV2, AddrV1, AddrV2, AddrV1b, AddrV2b, AddrFnd, AddrFndV2, AddrV1, AddrV2, AddrACS, AddrACS, AddrNoSig, AddrNoSig} {
+	for _, c := range []int{AddrV1, AddrV2, AddrV1, AddrV2, AddrV1b, AddrV2b, AddrFnd, AddrFndV2, AddrV1, AddrV2, AddrACS, AddrACS, AddrNoSig, AddrNoSig, AddrThresh, AddrThresh} {
 		g.SC = append(g.SC, types.SiacoinOutput{Value: types.Siacoins(v), Address: k.Addr(c)})
 		v += 100
 	}
